@@ -5,6 +5,7 @@ shard is inconclusive."""
 import glob
 import io
 import os
+import resource
 import struct
 import zipfile
 
@@ -132,15 +133,21 @@ def parse_apk(b):
 def parse_apksig(b):
     """the lazily parsed part of an APK: the APK Signing Block (v2 / v3 / v3.1 signers)"""
     from androguard.core import apk
+    SIG_OUTCOME.clear()
     a = apk.APK(b, raw=True)
     for q in ("is_signed_v2", "is_signed_v3", "is_signed_v31", "get_certificates_der_v2", "get_certificates_der_v3", "get_certificates_der_v31",
               "get_public_keys_der_v2", "get_public_keys_der_v3", "get_public_keys_der_v31", "has_duplicate_apk_signature_ids"):
         try:
             getattr(a, q)()
+            SIG_OUTCOME[q] = "returned"
         except steps.BudgetExceeded:
             raise
-        except Exception:
-            pass   # the other queries still run on the same object (a half-parsed block must not make a later query loop)
+        except Exception as e:
+            SIG_OUTCOME[q] = type(e).__name__
+            # the other queries still run on the same object (a half-parsed block must not make a later query loop)
+
+
+SIG_OUTCOME = {}     # query -> "returned" / exception type name, of the last parse_apksig call
 
 
 PARSERS = {"dex": parse_dex, "axml": parse_axml, "arsc": parse_arsc, "apk": parse_apk, "apksig": parse_apksig}
@@ -209,6 +216,90 @@ def mutate_sigblock(rng, seed):
         return bytes(b), mode
     struct.pack_into("<I", b, p, new & 0xFFFFFFFF)
     return bytes(b), mode
+
+
+def sigblock_pairwalk(rng, seed):
+    """The walk over the ID-value pairs: every pair starts with a uint64 length and the position of the next pair is derived from it, so the length of
+    one pair decides where the walk continues. The block is rebuilt with a few more (unknown-ID / padding) pairs, stays well-formed (both size fields and
+    the magic match, it sits directly in front of the central directory), and ONE pair gets a length computed from the place where the walk is meant to
+    continue, modulo 2**64: the pair itself, an earlier pair, the start of the block, a later pair, the end of the pairs, the middle of a pair,
+    somewhere in front of the block - or one of the boundary values of a 64-bit length (around 0, 2**31, 2**32, 2**63, 2**64).
+    -> (bytes, how, cls, the same file with the original length in that pair); cls 'backward' = the length has its top bit set and, read as a two's complement number, continues on this or an earlier pair,
+    'forward' = the length is that of a well-formed block whose pair covers some of the following pairs (must parse)."""
+    from vf.model import sigblockw as S
+    try:
+        loc = S.locate_signing_block(seed)
+        pairs = S.parse_pairs(loc[1]) if loc is not None else None
+    except Exception:
+        pairs = None
+    if not pairs:
+        return bytes(seed), "no-block", None, None
+    start, old = loc
+    pairs = list(pairs)
+    for _ in range(rng.choice([0, 1, 2, 3])):
+        pid = rng.choice([0x12345678, S.PAD_ID, 0x504B4453, rng.getrandbits(32)])
+        val = bytes(rng.choice([0, 65, rng.randrange(256)]) for _ in range(rng.choice([0, 1, 4, 8, 12, 20, 32, 64])))
+        if len(val) % 2 and rng.random() < 0.5:
+            val = b"\0" * len(val)
+        pairs.insert(rng.randint(0, len(pairs)), (pid, val))
+    block = bytearray(S.encode_signing_block(pairs))
+    offs = []
+    p = 8
+    for pid, val in pairs:
+        offs.append(p)
+        p += 12 + len(val)
+    end = p
+    assert end == len(block) - 24
+    j = rng.randrange(len(pairs))
+    here = offs[j] + 8           # the length of pair j counts from here
+    mode = rng.choice(["next-pair-is-this-pair", "next-pair-is-this-pair", "next-pair-is-an-earlier-pair", "next-pair-is-an-earlier-pair", "next-pair-is-the-first-pair",
+                       "continues-at-the-size-field", "continues-in-front-of-the-block", "continues-inside-an-earlier-pair", "continues-inside-this-pair",
+                       "covers-following-pairs", "covers-following-pairs", "covers-all-following-pairs", "continues-inside-a-later-pair", "ends-12-bytes-before-the-end",
+                       "boundary-value", "boundary-value", "boundary-value-plus-own-length"])
+    cls = None
+    if mode == "next-pair-is-this-pair":
+        t = offs[j]
+    elif mode == "next-pair-is-an-earlier-pair":
+        t = offs[rng.randint(0, j)]
+    elif mode == "next-pair-is-the-first-pair":
+        t = offs[0]
+    elif mode == "continues-at-the-size-field":
+        t = 0
+    elif mode == "continues-in-front-of-the-block":
+        t = -rng.choice([1, 8, 12, start, start + 1, start + 8, start + 4096])
+    elif mode == "continues-inside-an-earlier-pair":
+        t = rng.randrange(8, offs[j] + 1)
+    elif mode == "continues-inside-this-pair":
+        t = rng.randrange(offs[j], here + 4 + len(pairs[j][1]) + 1)
+    elif mode == "covers-following-pairs":
+        t = rng.choice(offs[j + 1:] + [end])
+    elif mode == "covers-all-following-pairs":
+        t = end
+    elif mode == "continues-inside-a-later-pair":
+        t = rng.randrange(min(here + 4, end), end + 1)
+    elif mode == "ends-12-bytes-before-the-end":
+        t = end - rng.choice([1, 4, 8, 11, 12])
+    else:
+        t = None
+    if t is not None:
+        new = (t - here) % 2 ** 64
+    else:
+        new = rng.choice([0, 1, 3, 4, 5, 11, 12, 2 ** 31 - 1, 2 ** 31, 2 ** 32 - 1, 2 ** 32, 2 ** 32 + 4 + len(pairs[j][1]), 2 ** 63 - 1, 2 ** 63, 2 ** 63 + 4, 2 ** 63 + 8,
+                          2 ** 63 + 12, 2 ** 64 - 1, 2 ** 64 - 3, 2 ** 64 - 4, 2 ** 64 - 8, 2 ** 64 - 12, 2 ** 64 - 16, 2 ** 64 - 20, 2 ** 64 - 24, 0xFF00000000000000, 0x8000000000000000 | (4 + len(pairs[j][1]))])
+        if mode == "boundary-value-plus-own-length":
+            new = (new + 4 + len(pairs[j][1])) % 2 ** 64
+    # offsets are relative to the block, so is the arithmetic (the block is far smaller than 2**63)
+    if new >= 2 ** 63 and here + new - 2 ** 64 in offs[:j + 1]:
+        cls = "backward"
+    elif 4 <= new < 2 ** 63 and here + new in offs[j + 1:] + [end]:
+        cls = "forward"
+    # put the block in the place of the old one; the central directory moves
+    out = bytearray(seed[:start] + bytes(block) + seed[start + len(old):])
+    eocd = S.find_eocd(seed) + len(block) - len(old)
+    struct.pack_into("<I", out, eocd + 16, start + len(block))
+    ref = bytes(out)
+    struct.pack_into("<Q", out, start + offs[j], new)
+    return bytes(out), mode, cls, ref
 
 
 # ---------------------------------------------------------------------------------------------------- mutators
@@ -412,7 +503,15 @@ def shard(ctx, arg):
     for k in range(count):
         name, s = rng.choice(ok_seeds)
         r = rng.random()
-        if kind == "apksig" and r < 0.85:
+        walk = None
+        if kind == "apksig" and r < 0.3:
+            data, how, walk, ref = sigblock_pairwalk(rng, s)
+            how = "pairwalk-" + how
+            ctx.count("apksig_pairwalk_inputs")
+            if walk is not None:
+                ctx.count("apksig_pairwalk_length_%s" % ("top_bit_set_continues_on_this_or_an_earlier_pair" if walk == "backward" else "covers_following_pairs"))
+            rss0 = resource.getrusage(resource.RUSAGE_SELF).ru_maxrss
+        elif kind == "apksig" and r < 0.85:
             data, how = mutate_sigblock(rng, s)
             how = "sigblock-" + how
         elif r < 0.7:
@@ -430,10 +529,35 @@ def shard(ctx, arg):
         ctx.ev()
         ctx.count("%s_hostile_inputs" % kind)
         bud = budget(len(data))
+        if how.startswith("pairwalk-") and ref is not None:
+            # these files differ from a well-formed file of the same run in 8 bytes only: that file is parsed first and the budget is 100x ITS steps (never more than
+            # the envelope). What a walk that does not end can collect before the budget runs out (steps grow with the square of the pairs collected) stays small.
+            try:
+                u0 = steps.run_with_budget(lambda: fn(ref), bud)
+                if SIG_OUTCOME.get("is_signed_v2") == "returned":
+                    ctx.count("apksig_pairwalk_same_file_with_original_length_loaded")
+                    bud = min(bud, 100 * u0)
+                    ctx.count("apksig_pairwalk_budget_from_same_file_with_original_length")
+            except steps.BudgetExceeded:
+                data, how, walk = ref, "pairwalk-rebuilt-well-formed-block", None      # reported by the run below
+            except BaseException as e:
+                if isinstance(e, (KeyboardInterrupt, SystemExit)):
+                    raise
+                ctx.count("apksig_pairwalk_same_file_with_original_length_raised")
         try:
             used = steps.run_with_budget(lambda: fn(data), bud)
             ctx.count("%s_returned" % kind)
             ctx.maxi("%s_max_steps_used_percent_of_budget" % kind, int(100 * used / bud))
+            if how.startswith("pairwalk-"):
+                # the walk itself came to an end: with a result (counted; required for the lengths of a well-formed block) or with an error
+                if SIG_OUTCOME.get("is_signed_v2") == "returned":
+                    ctx.count("apksig_pairwalk_block_loaded")
+                    if walk == "forward":
+                        ctx.count("apksig_pairwalk_covering_length_block_loaded")
+                else:
+                    ctx.count("apksig_pairwalk_block_rejected")
+                    if walk == "backward":
+                        ctx.count("apksig_pairwalk_backward_length_rejected")
         except steps.BudgetExceeded:
             import sys
             import traceback
@@ -442,6 +566,8 @@ def shard(ctx, arg):
             inner = [f for f in frames if "androguard" in tb[0].filename or True]
             where = frames[-1][1] if frames else "unknown"
             wit = {"seed": name, "how": how, "len": len(data), "budget": bud, "stack_when_budget_ran_out": frames[-8:]}
+            if how.startswith("pairwalk-") and bud < budget(len(data)):
+                wit["budget_is"] = "100x the steps the same file needs with the original length in that pair (lower than 100x the envelope of the valid seeds: %d)" % budget(len(data))
             if len(data) < 6000:
                 wit["data"] = data
             # mechanism = parser + innermost function that was still running (a location, not an input property)
@@ -457,6 +583,9 @@ def shard(ctx, arg):
             if isinstance(e, (KeyboardInterrupt, SystemExit)):
                 raise
             ctx.count("%s_raised" % kind)
+        if how.startswith("pairwalk-"):
+            # what the pairs collected by the walk may hold is bounded by the file as well (KiB; ru_maxrss is a high-water mark)
+            ctx.maxi("apksig_pairwalk_max_rss_growth_kib_in_one_parse", resource.getrusage(resource.RUSAGE_SELF).ru_maxrss - rss0)
         ctx.sig(kind, how, min(len(data), 2 ** 14) // 1024)
         if idx == 0 and k < 2:
             ctx.sample({"kind": kind, "seed": name, "how": how, "len": len(data), "head": data[:32]})
@@ -562,7 +691,9 @@ def run(ctx):
                 "4-byte fields set to 0xFFFFFFFF/0x7FFFFFFF/size+-1, crafted files (string data without terminator at end of file, counts at 2^32-1, chunk sizes 0/backwards/huge, "
                 "zip central directories pointing into themselves), DEX checksums re-fixed. Real calls: DEX(b)+bounded walk, AXMLPrinter(b).get_xml(), ARSCParser(b)+resolve, "
                 "APK(b, raw=True)+queries, APK(b, raw=True)+every v2/v3/v3.1 signing-block query on generated and shipped signed APKs whose block has one length field "
-                "made larger/smaller/huge/zero or its tail zeroed, each under a sys.monitoring step budget of 100x the calibrated linear envelope. distinct non-trivial = distinct (parser, mutation kind, size class)")
+                "made larger/smaller/huge/zero or its tail zeroed, or (block rebuilt well-formed with extra pairs) the uint64 length of one pair set so that, modulo 2^64, the walk "
+                "continues on the same pair / an earlier pair / the size field / in front of the block / inside a pair / on a later pair / at the end, or to a boundary value around "
+                "0, 2^31, 2^32, 2^63, 2^64, each under a sys.monitoring step budget of 100x the calibrated linear envelope. distinct non-trivial = distinct (parser, mutation kind, size class)")
     ctx.assumptions = ["'bounded by the input size' is operationalised as 'within 100x the (const + ratio*n) step envelope measured on valid inputs in the same run'",
                        "loops inside C extensions (zlib, lxml, struct, re) are invisible to the step counter; in the mutation shards they would surface as a shard watchdog = inconclusive; "
                        "the native-stall probe runs 60 name-shaped documents in processes of their own under a 90 s (confirmed: 180 s) wall-clock limit - the only place where a "
@@ -578,4 +709,9 @@ def run(ctx):
     for kind in per:
         ctx.require_counter("%s_hostile_inputs" % kind, 100)
         ctx.require_counter("%s_valid_seeds_parsed" % kind, 1)
+    # the pair walk: lengths that lead back onto a pair already visited were tried, and the same generator's well-formed lengths load (not everything is rejected up front)
+    ctx.require_counter("apksig_pairwalk_inputs", 200)
+    ctx.require_counter("apksig_pairwalk_length_top_bit_set_continues_on_this_or_an_earlier_pair", 60)
+    ctx.require_counter("apksig_pairwalk_covering_length_block_loaded", 20)
+    ctx.require_counter("apksig_pairwalk_budget_from_same_file_with_original_length", 200)
     ctx.min_distinct = 20
